@@ -22,3 +22,12 @@ Theorem c11_reqrep_registration_never_dropped : forall tr s, rrun rinit tr = Som
     \/ In l (map snd (h_keys (rgh s))).
 Proof. exact rr_no_registration_lost. Qed.
 Print Assumptions c11_reqrep_registration_never_dropped.
+
+(** the same, anchored in the trace: every socket sent on the registration channel of the
+    request/reply router, at any point of any accepted trace, is waiting or was given a role *)
+Theorem c11_reqrep_every_queued_socket_placed : forall tr s, rrun rinit tr = Some s ->
+  forall q w, In (VQueue q w) tr ->
+    In (rlabel_of q) (map rlabel_of (rqueue s)) \/ In (rlabel_of q) (h_bound (rgh s))
+    \/ In (rlabel_of q) (h_rejected (rgh s)) \/ In (rlabel_of q) (map snd (h_keys (rgh s))).
+Proof. exact rr_every_queued_socket_placed. Qed.
+Print Assumptions c11_reqrep_every_queued_socket_placed.
